@@ -90,6 +90,7 @@ def set_logging(mode: str) -> None:
 
 
 FAILFAST = bool(os.environ.get("VERIF_FAILFAST"))
+TIME_CAP = float(os.environ.get("VERIF_TIME_CAP", "0") or 0)
 AMBIENT = {"lowprec": False, "dst_zone": False}
 
 
@@ -204,6 +205,11 @@ class Run:
             # that reports a violation
             self.exhaustive = False
             self.notes.append("VERIF_FAILFAST: stopped after the first phase with a violation")
+            sys.exit(self.finish(0, 0, 0, 0, 0))
+        if TIME_CAP and _real_time() - self.t0 > TIME_CAP:
+            # mutation triage only (never set by a registered command): give up after the phase that crosses the cap
+            self.exhaustive = False
+            self.notes.append(f"VERIF_TIME_CAP: stopped after {_real_time() - self.t0:.0f} s")
             sys.exit(self.finish(0, 0, 0, 0, 0))
 
     def log(self, msg: str) -> None:
